@@ -293,7 +293,8 @@ def dev_key(dev):
 
 def run_case(case, acc, order):
     dev = case['dev']
-    spec = spec_of(dev, case['fill'])
+    sizes = case.get('sizes') or {}
+    spec = dict(spec_of(dev, case['fill']), **sizes)
     bad, info = load_and_check(spec)
     acc.state()
     nontrivial = len(dev) >= 1
@@ -308,15 +309,18 @@ def run_case(case, acc, order):
                 found = None
                 for sub in itertools.combinations(sorted(dev), k):
                     subdev = {a: dev[a] for a in sub}
-                    b2, _ = load_and_check(spec_of(subdev, case['fill']))
+                    b2, _ = load_and_check(dict(spec_of(subdev, case['fill']), **sizes))
                     if any(a2 == attr and k2 == kind for a2, k2, _, _ in b2):
                         found = subdev
                         break
                 if found is not None:
                     culprit = found
                     break
-        sig = '%s/load/%s/%s/%s' % (PROP, attr, kind, dev_key(culprit))
-        acc.violation(sig, core.make_record(PROP, 'load', sig, case={'dev': culprit, 'fill': case['fill']},
+        sig = '%s/load/%s/%s/%s%s' % (PROP, attr, kind, dev_key(culprit),
+                                       ''.join(',%s=%s' % kv for kv in sorted(sizes.items())))
+        acc.violation(sig, core.make_record(PROP, 'load', sig,
+                                            case=dict({'dev': culprit, 'fill': case['fill']},
+                                                      **({'sizes': sizes} if sizes else {})),
                                             op={'attribute': attr, 'seen_in': dev},
                                             expected=exp, observed=got), len(culprit) * 10 ** 6 + order)
 
@@ -336,7 +340,8 @@ def explore(ctx):
                 'value combination); transition = load_model on it, every public attribute compared '
                 'with the generator\'s ground truth and the directory hashed before/after; non-trivial '
                 '= at least one deviation from the default layout')
-    ctx.assumptions = ['>= 2 spikes/templates/channels (squeeze is degenerate below)',
+    ctx.assumptions = ['>= 2 spikes and templates (a one-template file squeezes to a 2-D array and is refused); '
+                       'one-channel probes are covered by their own sweep',
                        'at NaN/inf positions of memory-mapped arrays either the stored value or 0 is '
                        'accepted (the statement speaks of fully loaded arrays)',
                        'ALF naming implies column-sparse templates',
@@ -344,6 +349,12 @@ def explore(ctx):
                        'only (with curated clusters the loader has to pick the largest channel of that '
                        'template, which does not exist; not a well-formed dataset)']
     ctx.run_cases(run_case, cases, sweep='deviation-bounded')
+    # a probe with a single channel (every vector has length one: squeezing must not drop the axis)
+    cases = [{'dev': dev, 'fill': ctx.seed, 'sizes': {'n_channels': 1}}
+             for k in (0, 1, 2 if ctx.thorough else 1) for dev in deviations(k)
+             if dev.get('content') != 'inf_wm']      # a 1x1 whitening matrix [[inf]] has no inverse
+    cases = [c for i, c in enumerate(cases) if c not in cases[:i]]
+    ctx.run_cases(run_case, cases, sweep='one-channel')
     ctx.notes['deviations_completed'] = K
 
 
